@@ -191,20 +191,20 @@ def run(ctx, rep, tier):
     need("OutIntegerExpr", r"state->c\.\{intexpr\.ref\.name\}", "variable read")
     need("StringLengthIntegerExpr", r"state->\{intexpr\.ref\.name\}_counter", "string length is its counter")
     lit = ast.unparse(model.func("CodegenCtx._convert_literal_value"))
-    rep.check("'true' if literal.get_literal_result() else 'false'" in lit and "str(literal.get_literal_result())" in lit, "C14.c", "CodegenCtx._convert_literal_value",
+    rep.check(model.has("CodegenCtx._convert_literal_value", "'true' if literal.get_literal_result() else 'false'") and model.has("CodegenCtx._convert_literal_value", "str(literal.get_literal_result())"), "C14.c", "CodegenCtx._convert_literal_value",
               "bool -> true/false, int -> decimal", "literal rendering changed")
 
     # ------------------------------------------------------------------ C14.d coercions
     rep.rule("C14.d", "integer conditions are wrapped as != 0; declared width/sign select exactly the C type of that width")
     ic = ast.unparse(model.func("IntegerCondition.__init__"))
-    rep.check("CompareIntegerExpr(expr, LiteralIntegerExpr(0), CompareIntegerExprOp.NE)" in ic and "expr.result_type() == OutputStorageType.INT" in ic, "C14.d",
+    rep.check(model.has("IntegerCondition.__init__", "CompareIntegerExpr(expr, LiteralIntegerExpr(0), CompareIntegerExprOp.NE)") and model.has("IntegerCondition.__init__", "expr.result_type() == OutputStorageType.INT"), "C14.d",
               "IntegerCondition.__init__", "INT condition -> (expr) != 0", "integer-to-bool coercion of conditions changed")
     check_width_table(rep, model)
     od = ast.unparse(model.func("CodegenCtx._get_state_object_out_declaration"))
-    rep.check("self._integer_containing(signed=out_decl.int_signed, width=out_decl.int_width)" in od, "C14.d", "CodegenCtx._get_state_object_out_declaration",
+    rep.check(model.has("CodegenCtx._get_state_object_out_declaration", "self._integer_containing(signed=out_decl.int_signed, width=out_decl.int_width)"), "C14.d", "CodegenCtx._get_state_object_out_declaration",
               "int outputs declared from their signedness and width", "int declaration no longer uses the declared sign/width")
     po = ast.unparse(model.func("ParseCtx._parse_out_decl"))
-    rep.check("kwargs['int_signed'] = attr.children[0].value == 'signed'" in po and "kwargs['int_width'] = int(attr.children[0].value)" in po, "C14.d", "ParseCtx._parse_out_decl",
+    rep.check(model.has("ParseCtx._parse_out_decl", "kwargs['int_signed'] = attr.children[0].value == 'signed'") and model.has("ParseCtx._parse_out_decl", "kwargs['int_width'] = int(attr.children[0].value)"), "C14.d", "ParseCtx._parse_out_decl",
               "signed/size attributes parsed", "int attribute parsing changed")
 
     # ------------------------------------------------------------------ C14.e same renderer everywhere
@@ -222,9 +222,9 @@ def run(ctx, rep, tier):
     rep.check("self._generate_condition(condition, is_start or is_end, True)" in arm_of_a.get("ConditionalAction", ""), "C14.e", "CodegenCtx._generate_action_implementation",
               "conditional action conditions go through _generate_condition", "conditional action renders its condition differently")
     gc = ast.unparse(model.func("CodegenCtx._generate_condition"))
-    rep.check("return self._generate_code_for_int_expr(condition.expr, use_ctx)" in gc, "C14.e", "CodegenCtx._generate_condition", "conditions use the renderer", "condition rendering changed")
+    rep.check(model.has("CodegenCtx._generate_condition", "return self._generate_code_for_int_expr(condition.expr, use_ctx)"), "C14.e", "CodegenCtx._generate_condition", "conditions use the renderer", "condition rendering changed")
     cp = ast.unparse(model.func("CodegenCtx._generate_condition_point_body"))
-    rep.check("self._generate_condition(condition.condition, from_end)" in cp, "C14.e", "CodegenCtx._generate_condition_point_body", "if-statement conditions go through _generate_condition", "condition point renders differently")
+    rep.check(model.has("CodegenCtx._generate_condition_point_body", "self._generate_condition(condition.condition, from_end)"), "C14.e", "CodegenCtx._generate_condition_point_body", "if-statement conditions go through _generate_condition", "condition point renders differently")
     # no other function emits operator text for expressions
     others = [q for q, f in model.functions.items() if q != REND and q.startswith("CodegenCtx.") and re.search(r"intexpr\.op\.value|operator\.value", ast.unparse(f))]
     rep.check(not others, "C14.e", "CodegenCtx", "single renderer", f"expression operators are also rendered in {others}")
